@@ -517,13 +517,12 @@ impl<'a> Model<'a> {
             };
             let mut completed: Option<String> = None;
             let mut was_piece = false;
-            let mut suspended = false;
+            let mut is_call = false;
             match ins.opc {
                 0x03 => {
                     self.trace.push(format!("relocated {:#x}", ins.u & self.mask_for_addr()));
                     let a = self.world.relocated(ins.u & self.mask_for_addr());
                     self.push(MV::G(a & self.mask))?;
-                    suspended = true;
                 }
                 0x06 | 0x94 | 0x18 | 0x95 | 0xa6 | 0xf6 | 0xa7 => {
                     let (size, space, bt) = match ins.opc {
@@ -548,7 +547,6 @@ impl<'a> Model<'a> {
                     self.trace.push(format!("mem addr={:#x} size={} space={:?} bt={}", addr, size, sp, bt));
                     let v = self.answer(self.world.memory(addr, size, sp, bt));
                     self.push(v)?;
-                    suspended = true;
                 }
                 0x08 | 0x0a | 0x0c | 0x0e | 0x10 => {
                     let v = match ins.opc {
@@ -694,13 +692,11 @@ impl<'a> Model<'a> {
                     let o = self.from_u64(ty_of(&v), off as u64);
                     let r = self.arith(0x22, v, o)?;
                     self.push(r)?;
-                    suspended = true;
                 }
                 0x91 => {
                     self.trace.push("frame_base".into());
                     let fb = self.world.frame_base();
                     self.push(MV::G(fb.wrapping_add(ins.s as u64) & self.mask))?;
-                    suspended = true;
                 }
                 0x93 | 0x9d => {
                     let (size, off) = if ins.opc == 0x93 {
@@ -738,7 +734,7 @@ impl<'a> Model<'a> {
                         format!("at_location UnitRef(UnitOffset({}))", key)
                     };
                     self.trace.push(r);
-                    suspended = true;
+                    is_call = true;
                     let nsubs = self.progs.len() - 1;
                     if nsubs > 0 {
                         let sub = 1 + (key % nsubs as u64) as usize;
@@ -758,13 +754,11 @@ impl<'a> Model<'a> {
                     self.trace.push(format!("tls {:#x}", i));
                     let a = self.world.tls(i);
                     self.push(MV::G(a & self.mask))?;
-                    suspended = true;
                 }
                 0x9c => {
                     self.trace.push("cfa".into());
                     let a = self.world.cfa();
                     self.push(MV::G(a & self.mask))?;
-                    suspended = true;
                 }
                 0x9e => {
                     completed = Some(format!("Bytes({})", crate::case::hex(&ins.bytes[..ins.bytes.len().min(64)])));
@@ -781,20 +775,17 @@ impl<'a> Model<'a> {
                     self.trace.push(format!("indexed {} relocate={}", ins.u, relocate));
                     let a = self.world.indexed(ins.u, relocate);
                     self.push(MV::G(a & self.mask))?;
-                    suspended = true;
                 }
                 0xa3 | 0xf3 => {
                     self.trace.push(format!("entry_value {}", crate::case::hex(&ins.bytes)));
                     let v = self.answer(self.world.entry_value(&ins.bytes));
                     self.push(v)?;
-                    suspended = true;
                 }
                 0xa4 | 0xf4 => {
                     self.trace.push(format!("base_type {}", ins.u));
                     let ty = self.world.base_type(ins.u);
                     let v = self.parse_typed(ty, &ins.bytes)?;
                     self.push(v)?;
-                    suspended = true;
                 }
                 0xa8 | 0xf7 | 0xa9 | 0xf9 => {
                     self.trace.push(format!("base_type {}", ins.u));
@@ -802,13 +793,11 @@ impl<'a> Model<'a> {
                     let v = self.pop()?;
                     let r = if matches!(ins.opc, 0xa8 | 0xf7) { self.convert(v, ty)? } else { self.reinterpret(v, ty)? };
                     self.push(r)?;
-                    suspended = true;
                 }
                 0xfa => {
                     self.trace.push(format!("parameter_ref {}", ins.u & 0xffff_ffff));
                     let a = self.world.parameter_ref(ins.u & 0xffff_ffff);
                     self.push(MV::G(a & self.mask))?;
-                    suspended = true;
                 }
                 0xfd | 0xf0 => return Err(e("UnsupportedEvaluation")),
                 0xed => {
@@ -870,14 +859,12 @@ impl<'a> Model<'a> {
                 }
                 continue;
             }
-            if !suspended && at_end(&frames, self.progs, prog, pc) && !self.pieces.is_empty() {
+            // an operation that is neither a piece nor a location and ends the expression after
+            // pieces leaves an unterminated piece - whether or not it had to ask the debugger
+            // (gimli used to skip this check after a resume; fixed, see known_findings.json).
+            // A call produces no value of its own and is exempt.
+            if !is_call && at_end(&frames, self.progs, prog, pc) && !self.pieces.is_empty() {
                 return Err(e("InvalidPiece"));
-            }
-            if suspended && at_end(&frames, self.progs, prog, pc) && !self.pieces.is_empty() {
-                // gimli accepts this (the check is skipped after a resume); DWARF leaves a
-                // composite location followed by a dangling value undefined
-                self.unmodelled = Some("dangling value after pieces following a resume");
-                return Err(e("unmodelled"));
             }
         }
     }
